@@ -46,7 +46,7 @@ def expect_witness(cid, fl):
     return None
 
 
-def round(ctx, d, hb, mexe, n, extra, known, st, dist, viol, seen_known, distinct):
+def one_round(ctx, d, hb, mexe, n, extra, known, st, dist, viol, seen_known, distinct):
     ok, msg = L.run_harness(hb, d, ctx.seed, n, ctx.only, extra)
     if not ok:
         ctx.violation("encoder harness crashed: " + msg, {"output": msg}, True)
@@ -172,7 +172,7 @@ def run(ctx):
     else:
         rounds = [("C04", 8000, ["-flags", "rand:4"]), ("C04all", 0, ["-flags", "all", "-maxval", "2500"])]
     for name, n, extra in rounds:
-        if not round(ctx, L.work(name), hb, mexe, n, extra, known, st, dist, viol, seen_known, distinct):
+        if not one_round(ctx, L.work(name), hb, mexe, n, extra, known, st, dist, viol, seen_known, distinct):
             return
     for kf, cid in sorted(seen_known.items()):
         ctx.known(kf, "%s (e.g. case %s)" % (known[kf]["signature"], cid))
